@@ -51,7 +51,7 @@ def meta(tier):
                 'endianness x address width); each history is completed with constants K0/K1, definitions for labels that were '
                 'referenced but not defined (so references are forward as well as backward) and a suffix that emits every '
                 'label value; the whole image from address 0 must equal the reference layout; non-trivial = history with a '
-                'label reference and an address-moving line (origin/align/zone/fill); plus every history up to depth 4 (thorough 5) over a 12-symbol multi-file alphabet (labels, references, origins, zone switches, alignment, and includes of a plain file, of a file that switches zone, of a file with its own origin), with every label of every file read out at the end; plus a 64-bit address space with origins at and above 2^53 x 5 alignments x 0..7 bytes before the alignment; programs that fill an 8- / 16-bit address space to its last byte and define a label there (value 2^n, referenced before and after); states = distinct reference states',
+                'label reference and an address-moving line (origin/align/zone/fill); plus every history up to depth 4 (thorough 5) over a 12-symbol multi-file alphabet (labels, references, origins, zone switches, alignment, and includes of a plain file, of a file that switches zone, of a file with its own origin), with every label of every file read out at the end; plus a 64-bit address space with origins at and above 2^53 x 5 alignments x 0..7 bytes before the alignment; programs that fill an 8- / 16-bit address space to its last byte and define a label there (value 2^n, referenced before and after); quoted strings under .2byte / .4byte / .8byte between labels, both byte orders; states = distinct reference states',
         'bounds': {'alphabet': [R.render_stmt(s) if s[0] != 'excluded' else '#if 0 / .byte 1,2,3 / G9: / #endif' for s in SIGMA],
                    'depth_full': 3 if q else 4, 'depth_core': 4 if q else 5, 'configs': [c[0] for c in CONFIGS]},
         'assumptions': [
@@ -59,7 +59,7 @@ def meta(tier):
             'does not say which of the two addresses "the next line" has)',
             'muted lines occupy addresses', 'constants defined from address labels are not generated',
         ],
-        'floors': {'evaluations': 1000, 'nontrivial': 100, 'statuses': ['OK', 'REJECT'], 'clauses': ['accepted', 'multi-file', 'wide-address', 'top-of-memory']},
+        'floors': {'evaluations': 1000, 'nontrivial': 100, 'statuses': ['OK', 'REJECT'], 'clauses': ['accepted', 'multi-file', 'wide-address', 'top-of-memory', 'wide-string']},
         'nshards': 64,
     }
 
@@ -123,6 +123,7 @@ def shard(acc, tier, idx, n):
     multi_file(acc, idx, n, q)
     wide_addresses(acc, idx, n)
     top_of_memory(acc, idx, n)
+    wide_strings(acc, idx, n)
 
 
 MULTI = [('label', 'G0'), ('nop',), ('jmp', ('lab', 'G0')), ('data', 2, [('lab', 'G1')]), ('org', 2, 'zz'), ('memzone', 'zz'), ('memzone', 'GLOBAL'),
@@ -219,6 +220,32 @@ def top_of_memory(acc, idx, n):
         ref, out, msg = run_program(acc, params, isa, files, clause='top-of-memory', nontrivial=('top', bits, k, filler, tail),
                                     sample=(k == 2 and filler == 'bytes'))
         acc.state(('top', bits, k, filler, tail))
+
+
+def wide_strings(acc, idx, n):
+    """A quoted string under .2byte / .4byte / .8byte emits each character in the width of the directive: the space reserved for the
+    line is the space it fills, so the labels around it and the lines after it are where the layout says."""
+    import itertools
+    ctr = 0
+    for endian, (d1, w1, t1), (d2, w2, t2) in itertools.product(('little', 'big'), (('.2byte', 2, 'AB'), ('.4byte', 4, 'Z'), ('.byte', 1, 'hi')),
+                                                                 (('.2byte', 2, 'q'), ('.8byte', 8, 'xy'), ('.4byte', 4, 'ab'))):
+        ctr += 1
+        if ctr % n != idx:
+            continue
+
+        def wide(text, w):
+            out = []
+            for ch in text:
+                b = [ord(ch)] + [0] * (w - 1)
+                out += b if endian == 'little' else b[::-1]
+            return out
+        params = R.Params(address_size=16, endian=endian, origin=0, page_size=1)
+        isa = probe_isa(16, endian)
+        stmts = [('data', 2, [('lab', 'W1'), ('lab', 'W2'), ('lab', 'W3')]), ('label', 'W0'),
+                 ('rawbytes', f'    {d1} "{t1}"', wide(t1, w1)), ('label', 'W1'), ('nop',),
+                 ('rawbytes', f'    {d2} "{t2}"', wide(t2, w2)), ('label', 'W2'), ('data', 1, [0x7E]), ('label', 'W3'), ('data', 1, [0xEE])]
+        ref, out, msg = run_program(acc, params, isa, {'main.asm': stmts}, clause='wide-string', nontrivial=('wstr', endian, d1, d2), sample=(ctr % 5 == 0))
+        acc.state(('wstr', endian, d1, d2))
 
 
 def judge(spec, outcomes):
